@@ -428,11 +428,15 @@ int main(int argc, char **argv)
             long idx = vh_case_idx;
             char small[16], *s;
             int is_small = idx < E;
-            if (idx == E && L == 8) { many_tokens_case(); vh_case_done(); continue; }
+            if (idx == E && L == 8) { int keep = vh_case_cpu_budget; vh_case_cpu_budget = 0; vh_guard_end(); many_tokens_case(); vh_case_cpu_budget = keep; vh_case_done(); continue; }   /* 66000 tokens: quadratic, tens of seconds by design */
             if (is_small) { small_decode(idx, small); s = small; }
             else s = gen_random();
-            for (int d = 0; d < 3; d++) check_split_tok_join(s, d, is_small);
-            check_words(s, is_small);
+            /* CPU-time backstop for the whole case (a few hundred scans of a string of at most 2 kB): a scanner that stops advancing is reported, not waited for */
+            if (VH_GUARD_TRY(5)) {
+                for (int d = 0; d < 3; d++) check_split_tok_join(s, d, is_small);
+                check_words(s, is_small);
+                vh_guard_end();
+            } else vh_fail("non-termination", "split/tok/word utilities used more than 5 s of CPU time on %s", vh_qs(s));
             if (is_small) { vh_cov(vh_hash_str(s, 12)); vh_count("grid_strings", 1); }
             else { vh_count("random_strings", 1); if (strlen(s) > 300) vh_count("random_strings_over_300", 1); free(s); }
         }
